@@ -134,6 +134,16 @@ def run(ctx):
         for g in b0:
             if not same(b0[g], bv[g], name == "class-substitution"):
                 ctx.violation("%s-changes-%s" % (name, g), {"seq": big, "variant": var, "length": len(big)}, expected=b0[g], actual=bv[g])
+    if not ctx.quick:
+        # the size class of giant proteins (a quarter of a minute per SCD in the library itself): reversal and inversion of SCD
+        for n_ in (4099, ctx.rng.randint(4100, 4400)):
+            g_ = "".join(ctx.rng.choices("KEDRGSPQ", k=n_))
+            b_ = query(lc, g_, ["get_SCD"])
+            ctx.evaluations += 1
+            for name, var in (("reversal", g_[::-1]), ("inversion", invert(g_, ctx.rng))):
+                bv = query(lc, var, ["get_SCD"])
+                if not same(b_["get_SCD"], bv["get_SCD"], False):
+                    ctx.violation("%s-changes-get_SCD" % name, {"seq": g_[:40] + "...", "length": n_}, expected=b_["get_SCD"], actual=bv["get_SCD"])
     ctx.sample({"trace": {"seq": seqs[0], "ev": ["get_kappa", "get_delta", "get_deltaMax", "get_SCD", "get_Omega"]}})
     ctx.assumptions += ["same-class substitutions must give bitwise-equal floats; reversal/inversion within 1e-9",
                         "kappa out of [0,1] through finding K1 is C01's business; here only equality with the spec value is demanded"]
